@@ -81,6 +81,47 @@ fn json_decode_other_paths(ty: Ty, doc: &str) -> Result<[i64; 3], String> {
     })
 }
 
+/// Round trips inside containers (sequence, option, map value, map key, tuple) in both forms.
+fn container_round_trips(tv: &TV) -> Result<(), String> {
+    use std::collections::BTreeMap;
+    macro_rules! go {
+        ($v:expr, $t:ty) => {{
+            let v: $t = $v;
+            let seq = vec![v, v];
+            let js = serde_json::to_string(&seq).map_err(|e| e.to_string())?;
+            if serde_json::from_str::<Vec<$t>>(&js).map_err(|e| format!("json Vec: {e}"))? != seq { return Err("json Vec round trip".into()); }
+            let opt = Some(v);
+            let js = serde_json::to_string(&opt).map_err(|e| e.to_string())?;
+            if serde_json::from_str::<Option<$t>>(&js).map_err(|e| format!("json Option: {e}"))? != opt { return Err("json Option round trip".into()); }
+            if serde_json::from_str::<Option<$t>>("null").map_err(|e| format!("json null: {e}"))?.is_some() { return Err("json null".into()); }
+            let mut mv: BTreeMap<String, $t> = BTreeMap::new();
+            mv.insert("k".into(), v);
+            let js = serde_json::to_string(&mv).map_err(|e| e.to_string())?;
+            if serde_json::from_str::<BTreeMap<String, $t>>(&js).map_err(|e| format!("json map value: {e}"))? != mv { return Err("json map value round trip".into()); }
+            let mut mk: BTreeMap<$t, i32> = BTreeMap::new();
+            mk.insert(v, 7);
+            let js = serde_json::to_string(&mk).map_err(|e| format!("json map key serialize: {e}"))?;
+            if serde_json::from_str::<BTreeMap<$t, i32>>(&js).map_err(|e| format!("json map key {js}: {e}"))? != mk { return Err("json map key round trip".into()); }
+            let tup = (v, 5u8, v);
+            let b = bincode::serialize(&tup).map_err(|e| e.to_string())?;
+            if bincode::deserialize::<($t, u8, $t)>(&b).map_err(|e| format!("bincode tuple: {e}"))? != tup { return Err("bincode tuple round trip".into()); }
+            let b = bincode::serialize(&seq).map_err(|e| e.to_string())?;
+            if bincode::deserialize::<Vec<$t>>(&b).map_err(|e| format!("bincode Vec: {e}"))? != seq { return Err("bincode Vec round trip".into()); }
+            let b = bincode::serialize(&opt).map_err(|e| e.to_string())?;
+            if bincode::deserialize::<Option<$t>>(&b).map_err(|e| format!("bincode Option: {e}"))? != opt { return Err("bincode Option round trip".into()); }
+            Ok(())
+        }};
+    }
+    match tv.ty {
+        Ty::Date => go!(Date::try_from_days(tv.raw as i32).unwrap(), Date),
+        Ty::Time => go!(Time::try_from_usecs(tv.raw).unwrap(), Time),
+        Ty::Timestamp => go!(Timestamp::try_from_usecs(tv.raw).unwrap(), Timestamp),
+        Ty::IntervalYM => go!(IntervalYM::try_from_months(tv.raw as i32).unwrap(), IntervalYM),
+        Ty::IntervalDT => go!(IntervalDT::try_from_usecs(tv.raw).unwrap(), IntervalDT),
+        Ty::OracleDate => go!(OracleDate::try_from_usecs(tv.raw).unwrap(), OracleDate),
+    }
+}
+
 fn bin_decode(ty: Ty, b: &[u8]) -> Result<i64, String> {
     Ok(match ty {
         Ty::Date => bincode::deserialize::<Date>(b).map_err(|e| e.to_string())?.days() as i64,
@@ -121,6 +162,7 @@ fn round_trip(acc: &mut Acc, idx: u64, tv: &TV, toks: &[refmodel::picture::Tok])
             if others != [tv.raw; 3] {
                 return Err(format!("from_value / from_reader / escaped-string decode gave {others:?}"));
             }
+            container_round_trips(tv)?;
             // two values in one binary stream: the encoding must be self-delimiting at its documented width
             let pair = with_value!(tv, v, bincode::serialize(&(v, v))).map_err(|e| format!("bincode serialize pair: {e}"))?;
             let mut want = raw_bytes(tv.ty, tv.raw);
